@@ -230,6 +230,22 @@ func genC28(g *gen) {
 			return true
 		})
 	}
+	// initComponents hands the signing public key to the flooder whenever one is configured
+	// (and on no other condition, e.g. not only when sleep mode is enabled)
+	keyAlways := false
+	if fd := methods["initComponents"]; fd != nil {
+		ast.Inspect(fd.Body, func(x ast.Node) bool {
+			is, ok := x.(*ast.IfStmt)
+			if !ok || is.Init != nil {
+				return true
+			}
+			if strings.Contains(normSleepcmd(src(is.Body)), "floodCfg.SigningPublicKey = &signingPubKey") {
+				keyAlways = normSleepcmd(src(is.Cond)) == "a.cfg.HasSigningKey()"
+			}
+			return true
+		})
+	}
+	g.line("Definition gen_c28_flooder_gets_signing_key_whenever_configured : bool := %s.", coqBool(keyAlways))
 	g.line("Definition gen_c28_dispatch_ok : bool := %s.", coqBool(disp["protocol.FrameSleepCommand"] == "handleSleepCommand" &&
 		disp["protocol.FrameWakeCommand"] == "handleWakeCommand" && disp["protocol.FrameQueuedState"] == "handleQueuedState"))
 
